@@ -803,6 +803,7 @@ func (e *EtcdOp) GetAllDroppedObj() map[string]map[string]uint64 {
 
 	createdCollection := make(map[string]uint64)
 	createdPartition := make(map[string]uint64)
+	droppedPartitionCreateTime := make(map[string]uint64)
 
 	getDBNameForCollection := func(collectionID int64) string {
 		dbID := e.collectionID2DBID.LoadWithDefault(collectionID, -1)
@@ -885,6 +886,9 @@ func (e *EtcdOp) GetAllDroppedObj() map[string]map[string]uint64 {
 			createdPartition[dropKey] = partition.PartitionCreatedTimestamp
 		} else if partition.State == pb.PartitionState_PartitionDropped || partition.State == pb.PartitionState_PartitionDropping {
 			res[droppedPartitionKey][dropKey] = tt - 1
+			if partition.PartitionCreatedTimestamp > droppedPartitionCreateTime[dropKey] {
+				droppedPartitionCreateTime[dropKey] = partition.PartitionCreatedTimestamp
+			}
 		}
 	}
 
@@ -896,7 +900,8 @@ func (e *EtcdOp) GetAllDroppedObj() map[string]map[string]uint64 {
 	}
 	for s := range res[droppedPartitionKey] {
 		p, ok := createdPartition[s]
-		if ok {
+		// only a namesake created after the dropped partition is a newer incarnation
+		if ok && p > droppedPartitionCreateTime[s] {
 			res[droppedPartitionKey][s] = p - 1
 		}
 	}
